@@ -302,9 +302,28 @@ def run(ctx, rep):
                             mod_step = True
     rep.ob("C10.guard", "re-assignment: index / field steps never clear the const flag of the path walked so far", "ok" if carried and n_post >= 2 else "violated",
            "%d postfix steps found. %s" % (n_post, why), pp.span, fn=pp.path, key="C10.guard|reassign-flag-carried")
+    mod_detail = "" if mod_step else "`n = m` followed by `n.export = v` rebinds a member the module exports"
+    if not mod_step:
+        # the test may sit in a helper predicate (`ty.is_module()`): then the helper is evaluated, not its spelling matched
+        for g in [pp] + F.closures_of(pp):
+            thr_ = rules.TRANSPARENT | {rules.TRY_BRANCH, "compiler::ast::r#type::TypeLayout::disregard_distractors", "compiler::ast::r#type::TypeLayout::get_type_recursively",
+                                        "compiler::ast::r#type::TypeLayout::assume_type_of_self", "compiler::VecErr::to_err_vec", "compiler::CompilationError::details",
+                                        "compiler::CompilationError::details_lazy_message"}
+
+            def recv_ok(l, g=g, thr_=thr_):
+                oc = rules.origin_calls(g, l, transparent=thr_)
+                return any(c.matches("compiler::ast::reassignment::ReassignmentPath::for_type") or c.matches("IntoType>::for_type") for c in oc)
+
+            def edge_ok(tgt, g=g):
+                reach = g.reachable(tgt)
+                return any("use" in rv and "const" in rv["use"] and rv["use"]["const"].get("int") == "1" and g.locals[dst["l"]].strip() == "bool" and bi in reach
+                           for bi, si, dst, rv, s_ in g.assigns())
+            r_ = _helper_module_test(F, g, None, recv_ok, edge_ok, flag_names=("is_const",))
+            if r_ is not None:
+                mod_step = r_[0]
+                mod_detail = r_[1]
     rep.ob("C10.guard", "re-assignment: a field step taken on a module (through any alias of it) marks the path const",
-           "ok" if mod_step else ("undecided" if mod_step is None else "violated"),
-           "" if mod_step else "`n = m` followed by `n.export = v` rebinds a member the module exports", pp.span, fn=pp.path, key="C10.guard|reassign-module-step")
+           "ok" if mod_step else ("undecided" if mod_step is None else "violated"), mod_detail, pp.span, fn=pp.path, key="C10.guard|reassign-module-step")
 
     # compound assignment and ?=
     ft = [f for f in F.find("compiler::ast::math_expr::Expr::for_type")]
@@ -406,8 +425,18 @@ def run(ctx, rep):
         tgt = dict(t["targets"])[mod_i]
         if all(g_.bb not in ft.reachable(tgt) for g_ in gots):
             mod_op = True
+    op_detail = "%d tests of the object type against TypeLayout::Module under is_op_assign" % n_mod_sw
+    if not mod_op:
+        def recv_ok2(l):
+            oc = rules.origin_calls(ft, l, transparent=rules.TRANSPARENT | {rules.TRY_BRANCH, "compiler::ast::r#type::TypeLayout::disregard_distractors",
+                                                                            "compiler::ast::r#type::TypeLayout::get_type_recursively"})
+            rec = [c for c in oc if c.matches("compiler::ast::math_expr::Expr::for_type")]
+            return any(c.args and op_local(c.args[0]) is not None and _back(ft, op_local(c.args[0])) & dot_locals for c in rec)
+        r_ = _helper_module_test(F, ft, opreg, recv_ok2, lambda tgt: all(g_.bb not in ft.reachable(tgt) for g_ in gots))
+        if r_ is not None:
+            mod_op, op_detail = r_
     rep.ob("C10.guard", "compound assignment / ?= to a field of a module (through any alias of it) is rejected", "ok" if mod_op else "violated",
-           "%d tests of the object type against TypeLayout::Module under is_op_assign" % n_mod_sw, ft.span, fn=ft.path, key="C10.guard|opassign-module-step")
+           op_detail, ft.span, fn=ft.path, key="C10.guard|opassign-module-step")
     rt = F.fn("compiler::ast::math_expr::Expr::root_ident")
     if rt is not None:
         ea = F.adt("compiler::ast::math_expr::Expr")
@@ -1052,6 +1081,72 @@ def existence_is_asked_function_wide(F, rep, rule="C10.guard"):
                                                % (sorted({mir.short(mir.strip_generics(x.callee())) for x in narrow}) or "no lookup")),
                                st.get("sp"), fn=g.path, key="%s|lookup-extent|%s" % (rule, sub))
     rep.floor(rule + " previous-binding results of the declaration parsers", n, 2)
+
+
+
+def _module_predicates(F):
+    """Local predicates `fn(&TypeLayout) -> bool` of crate compiler that answer "is this a module?": found by a discriminant test against
+    TypeLayout::Module in their body, then *evaluated* (abstract interpreter) on a module type as it is and as the type checker wraps it for a
+    captured variable and for an alias.  {path: (ok, detail)}: ok iff it says yes to all three and no to int."""
+    from props import _hashkeys
+    import tables
+    from absint import Variant, Opaque
+    TLp = "compiler::ast::r#type::TypeLayout"
+    tl = F.adt(TLp)
+    tln = [v["name"] for v in tl["variants"]]
+    mod_i = str(tln.index("Module"))
+    T = tables.Tables(F)
+    mod = Variant(TLp, tln.index("Module"), "Module", [Opaque("m")])
+    samples = (("module", mod, True), ("captured(module)", Variant(TLp, tln.index("CallbackVariable"), "CallbackVariable", [mod]), True),
+               ("alias(module)", Variant(TLp, tln.index("Alias"), "Alias", [Opaque("name"), mod]), True), ("int", T.tl_value("Int", "i"), False))
+    out = {}
+    for f in F.crates["compiler"].fns:
+        if f.kind == "Closure" or f.argc != 1 or f.locals[0].strip() != "bool" or "TypeLayout" not in f.locals[1]:
+            continue
+        tests = False
+        for blk in f.blocks:
+            t = blk["t"]
+            if t["k"] == "switch" and mod_i in dict(t["targets"]):
+                for s_ in blk["s"]:
+                    if "d" in s_ and "discr" in s_["rv"] and "TypeLayout" in f.locals[s_["rv"]["discr"]["l"]]:
+                        tests = True
+        if not tests:
+            continue
+        bad = []
+        for label, v, want in samples:
+            got = _hashkeys.eval_pred(F, f, v)
+            if got is None:
+                bad.append("%s: not evaluated" % label)
+            elif got != want:
+                bad.append("%s: %s" % (label, "yes" if got else "no"))
+        out[f.path] = (not bad, "; ".join(bad))
+    return out
+
+
+def _helper_module_test(F, g, region, receiver_ok, edge_ok, flag_names=None):
+    """A call, inside `region` of g, of a module predicate whose receiver satisfies receiver_ok and whose true edge satisfies edge_ok.
+    Returns None (no such call), or (ok, detail)."""
+    preds = _module_predicates(F)
+    res = None
+    for c in g.calls():
+        cal = c.callee() or ""
+        hit = [p for p in preds if c.matches(p)]
+        if not hit or (region is not None and c.bb not in region) or not c.args or c.dst is None:
+            continue
+        l = op_local(c.args[0])
+        if l is None or not receiver_ok(l):
+            continue
+        der = g.derived([c.dst["l"]])
+        # `flag = flag || ty.is_module()`: the answer itself becomes (part of) the flag
+        direct = flag_names is not None and any(g.names.get(l_) in flag_names for l_ in der)
+        sw = list(rules.bool_switches(g, der))
+        for bb, t_t, f_t, pol in (sw or ([(None, None, None, None)] if direct else [])):
+            yes = t_t if pol is not False else f_t
+            if direct or edge_ok(yes):
+                ok, detail = preds[hit[0]]
+                res = (ok, "" if ok else "%s answers %s: inside a function that captured an alias of the module the alias is typed captured(module), the test says "
+                                         "`not a module` and the write through it is accepted" % (mir.short(hit[0]), detail))
+    return res
 
 
 def modify_target_is_not_const(F, rep, rule="C10.guard"):
